@@ -49,6 +49,8 @@ KINDS = {
     'blankwant': (['>>> print("a")', '<BLANKLINE>'], 'GotWantException', 1),
     'blankwant2': (['>>> print("a")', '<BLANKLINE>', '<BLANKLINE>'], 'GotWantException', 1),
     'blankgot': (['>>> print("")', 'b'], 'GotWantException', 1),
+    # under DONT_ACCEPT_BLANKLINE the marker is ordinary text: it does not match an empty output
+    'blankwant_literal': (['>>> # xdoctest: +DONT_ACCEPT_BLANKLINE', '>>> print()', '<BLANKLINE>'], 'GotWantException', 2),
     # the doctest closes the stream its output is collected in: the error arises in the machinery, after the statement,
     # with no frame of the doctest in its traceback (F31); the reported line is some line of the part (not judged)
     'close_stdout': (['>>> import sys', '>>> sys.stdout.close()'], 'ValueError', 'anyline'),
